@@ -1,19 +1,21 @@
 # C20 - path utilities keep their contracts
 RDPFN = '_ZN11Clipper2Lib3RDPIlEEvSt6vectorINS_5PointIT_EESaIS4_EEmmdRS1_IbSaIbEE'
-PERP = {'double Clipper2Lib::PerpendicDistFromLineSqrd<long>(': 'stub_perp'}
+PERP = {'double Clipper2Lib::PerpendicDistFromLineSqrd<long>(': 'stub_perp',
+        'Clipper2Lib::Point<long>& std::vector<Clipper2Lib::Point<long>, std::allocator<Clipper2Lib::Point<long> > >::emplace_back<Clipper2Lib::Point<long> const&>(': 'stub_path_append_c'}
 META = dict(
   level_text='Bounded model checking of the real utility functions. SimplifyPath and RamerDouglasPeucker are checked for ALL possible distance values: the perpendicular-distance kernel is replaced (IR-level substitution) by a symbolic table d(i;a,b) shared with the oracle, so the verdict covers every geometry of the stated size at once; TrimCollinear, StripDuplicates, GetBounds, TranslatePath are checked concretely on symbolic coordinates.',
-  level_note='Bounds: paths of 5 (SimplifyPath/RDP; 6 in the thorough tier) and 4 (TrimCollinear, coordinates on a small grid so that the 128-bit products stay decidable) vertices. The distance table is arbitrary non-negative and symmetric in the line end points; properties that need metric axioms are not asserted. Length, Ellipse, StripNearEqual (sqrt/sin/cos or inexact doubles) are outside the claim.',
+  level_note='Bounds: SimplifyPath on 4 vertices (quick) and 5 (thorough), RamerDouglasPeucker on 5 and 6 (thorough only: 12-50 min), TrimCollinear on 4 vertices of a 4x4 grid (thorough only; IsCollinear replaced by its exact 32-bit meaning). The distance table is arbitrary non-negative and symmetric in the line end points; vector appends go through a no-reallocation contract (capacity asserted). Length, Ellipse, StripNearEqual (sqrt/sin/cos or inexact doubles) are outside the claim.',
   functions=['SimplifyPath<long>', 'GetNext', 'GetPrior', 'RamerDouglasPeucker<long>', 'RDP<long>', 'TrimCollinear(Path64)', 'StripDuplicates<long>', 'GetBounds<long>(Path)', 'TranslatePath<long>'],
-  assumptions=['SimplifyPath/RDP: path of N distinct points, all epsilon in [0,1e10], all non-negative distance tables', 'TrimCollinear: 4 vertices on the grid [0,3]^2 (5 vertices on [0,2]^2 in the thorough tier)'],
+  assumptions=['SimplifyPath/RDP: path of N distinct concrete points, all epsilon in [0,1e10], all non-negative distance tables', 'TrimCollinear: 4 vertices on the grid [0,3]^2'],
   outside=['Length, Ellipse, StripNearEqual', 'open-path TrimCollinear', 'paths longer than the bounds'],
 )
+APPC = {'bool Clipper2Lib::IsCollinear<long>(': 'stub_iscol_small', 'Clipper2Lib::Point<long>& std::vector<Clipper2Lib::Point<long>, std::allocator<Clipper2Lib::Point<long> > >::emplace_back<Clipper2Lib::Point<long> const&>(': 'stub_path_append_c'}
 OBLIGATIONS = [
-  O('C20.c-simplifypath-4', 'c20_utils.cpp', 'harness_simplify', defs=['NPTS=4'], replace=PERP, olevel='INL', unwind=6, tiers='x', timeout=900, bound='4 vertices, open and closed, all eps, all distance tables', desc='subsequence in order; open end points kept; no remaining interior vertex within eps of the line through its remaining neighbours'),
-  O('C20.b-rdp-5', 'c20_utils.cpp', 'harness_rdp', defs=['NPTS=5'], replace=PERP, olevel='INL', unwind=6, unwindset=[RDPFN + ':4'], tiers='x', timeout=900, bound='5 vertices, all eps, all distance tables', desc='subsequence; end points kept; every removed vertex within eps of the line through its surviving neighbours'),
-  O('C20.c-simplifypath-5', 'c20_utils.cpp', 'harness_simplify', defs=['NPTS=5'], replace=PERP, olevel='INL', unwind=7, tiers='x', timeout=3000, bound='5 vertices', desc='as above'),
-  O('C20.b-rdp-6', 'c20_utils.cpp', 'harness_rdp', defs=['NPTS=6'], replace=PERP, olevel='INL', unwind=7, unwindset=[RDPFN + ':5'], tiers='x', timeout=3000, bound='6 vertices', desc='as above'),
-  O('C20.a-trimcollinear-4', 'c20_utils.cpp', 'harness_trimcollinear_closed', defs=['TN=4', 'TLIM=3'], olevel='INL', unwind=7, backend=['cadical', 'kissat'], bound='closed, 4 vertices on [0,3]^2', desc='signed area preserved; corners only and idempotent when the input has no repeats/reversals'),
+  O('C20.c-simplifypath-4', 'c20_utils.cpp', 'harness_simplify', defs=['NPTS=4'], replace=PERP, olevel='INL', unwind=6, tiers='q', timeout=900, bound='4 vertices, open and closed, all eps, all distance tables', desc='subsequence in order; open end points kept; no remaining interior vertex within eps of the line through its remaining neighbours'),
+  O('C20.b-rdp-5', 'c20_utils.cpp', 'harness_rdp', defs=['NPTS=5'], replace=PERP, olevel='INL', unwind=6, unwindset=[RDPFN + ':4'], tiers='t', timeout=1800, bound='5 vertices, all eps, all distance tables', desc='subsequence; end points kept; every removed vertex within eps of the line through its surviving neighbours'),
+  O('C20.c-simplifypath-5', 'c20_utils.cpp', 'harness_simplify', defs=['NPTS=5'], replace=PERP, olevel='INL', unwind=7, tiers='t', timeout=3000, bound='5 vertices', desc='as above'),
+  O('C20.b-rdp-6', 'c20_utils.cpp', 'harness_rdp', defs=['NPTS=6'], replace=PERP, olevel='INL', unwind=7, unwindset=[RDPFN + ':5'], tiers='t', timeout=3000, bound='6 vertices', desc='as above'),
+  O('C20.a-trimcollinear-4', 'c20_utils.cpp', 'harness_trimcollinear_closed', defs=['TN=4', 'TLIM=3'], olevel='INL', unwind=7, replace=APPC, backend=['kissat', 'cadical'], tiers='t', timeout=3000, bound='closed, 4 vertices on [0,3]^2', desc='signed area preserved; corners only and idempotent when the input has no repeats/reversals'),
   O('C20.d-stripduplicates', 'c20_utils.cpp', 'harness_stripdup', unwind=7, bound='4 vertices on [0,1]^2, open/closed', desc='no equal neighbours (cyclically if closed), first point kept'),
   O('C20.d-getbounds', 'c20_utils.cpp', 'harness_getbounds64', unwind=5, bound='3 vertices, all int64; empty path', desc='bounds are attained min/max; empty path gives the inverted rectangle'),
   O('C20.d-translate', 'c20_utils.cpp', 'harness_translate', unwind=5, bound='2 vertices, |values|<=2^61', desc='elementwise +dx,+dy'),
